@@ -14,7 +14,8 @@ CLAUSES (statement / quantifier axis -> facet; deciding assertion; populated cla
        of the numbers given, read back through read_lammps_wrapper / DumpReader; bounds-ndarray / -list / -tuple /
        -float32 / -int64 / -int-list (hand-built integer boxes), bounds-wide, bounds-rounded / -exact-6dec; d2 (dummy z) / d3
   a4 additional-column names                                          -> header_dump: addson-None / -0 / -1..3 / -4+ (any names incl.
-       brackets, up to 8, one or two blanks between them)
+       brackets, up to 8, one or two blanks between them); addson-columns-read-back: the named columns fetched from the
+       writer's frames by read_lammps_vector_wrapper / read_additions (writer -> auxiliary reader loop)
   b  molecule-centre reader: exactly the atoms whose type is a key, relabelled by the values, id order kept
        -> centertype (+ reader_sizes, aux_sequence); select-none / -some / -all, one-centre-selected, key-absent, keys-merged,
        relabel / relabel-identity, zero-based / wide values, labels-1..K / labels-sparse (atom types {1, 7, 40, 999}: the
@@ -102,6 +103,7 @@ FUZZ = {
     "centertype": {"quick": 700, "thorough": 40000},
     "columns": {"quick": 700, "thorough": 40000},
     "header_dump": {"quick": 500, "thorough": 20000},
+    "aux_sequence": {"quick": 400, "thorough": 20000},
 }
 
 MANIFEST = {
@@ -489,6 +491,19 @@ def check_header_dump(case):
                     f"{t}: boxbounds {bb.tolist()} differ from the bounds given to the writer {g.tolist()} by more than 5e-7")
             namb += cmp_positions(t, s.positions, e, atol)
     tags, shuffled = frame_tags(case)
+    nadd = len(case["addson"].split()) if case["addson"] else 0
+    if nadd:
+        # the additional columns named in the header, fetched by the column readers (writer -> auxiliary reader loop)
+        cols1 = list(range(2 + d + 1, 2 + d + nadd + 1))
+        cexp = [io19.columns_expected(pf, cols1) for pf in frames]
+        _cmp_vector(f"read_lammps_vector_wrapper(columnsids={cols1}) on the writer's frames", read_lammps_vector_wrapper(fn, d, cols1),
+                    cexp, frames)
+        if len({pf["natoms"] for pf in frames}) == 1:
+            want = np.array([v[:, -1] for v, _ in cexp])
+            close(f"read_additions(ncol={cols1[-1] - 1}) on the writer's frames", read_additions(fn, cols1[-1] - 1), want,
+                  rtol=1e-12, atol=0.0)
+            tags.append("addson-read_additions")
+        tags.append("addson-columns-read-back")
     sixdec = all(np.array_equal(np.round(np.asarray(b, float), 6), np.asarray(b, float)) for b in given)
     tags += ["addson-" + ("None" if case["addson"] is None else str(min(len(case["addson"].split()), 4))),
              "bounds-" + case["container"], "bounds-exact-6dec" if sixdec else "bounds-rounded"]
@@ -951,6 +966,17 @@ def _bits_equal(a, b):
     return True
 
 
+def _reader_twice(fn, d, ft, held, label, cmp, **kw):
+    """One DumpReader object evaluated twice; the first result is kept alive, the second is returned."""
+    rd = DumpReader(fn, ndim=d, filetype=ft, **kw)
+    rd.read_onefile()
+    first = rd.snapshots
+    cmp(label + " (first evaluation)", first)
+    held.append((label + " (first evaluation of the reader object)", first, _bits(first), cmp))
+    rd.read_onefile()
+    return rd.snapshots
+
+
 def check_aux_sequence(case):
     texts = [io19.encode_dump(fc) for fc in case["files"]]
     parsed_ = [parsed(t, "generated dump") for t in texts]
@@ -972,15 +998,15 @@ def check_aux_sequence(case):
         if stp["kind"] == "centre":
             mol = dict(stp["mol"])
             exp = [io19.centres_expected(pf, d, mol) for pf in frames]
+            cmp = (lambda lab, r, exp=exp, mol=mol: _cmp_centre(lab + f" (moltypes={mol})", r, exp))
             res = read_lammps_centertype_wrapper(fn, d, dict(mol)) if stp["via"] == "wrapper" else \
-                _dump_reader(fn, d, DumpFileType.LAMMPSCENTER, moltypes=dict(mol))
-            cmp = (lambda lab, r, exp=exp: _cmp_centre(lab + f" (moltypes={mol})", r, exp))
+                _reader_twice(fn, d, DumpFileType.LAMMPSCENTER, held, label, cmp, moltypes=dict(mol))
         elif stp["kind"] == "vector":
             cols1 = [int(c) for c in stp["cols"]]
             exp = [io19.columns_expected(pf, cols1) for pf in frames]
+            cmp = (lambda lab, r, exp=exp, frames=frames, cols1=cols1: _cmp_vector(lab + f" (columnsids={cols1})", r, exp, frames))
             res = read_lammps_vector_wrapper(fn, d, list(cols1)) if stp["via"] == "wrapper" else \
-                _dump_reader(fn, d, DumpFileType.LAMMPSVECTOR, columnsids=list(cols1))
-            cmp = (lambda lab, r, exp=exp, frames=frames: _cmp_vector(lab + f" (columnsids={cols1})", r, exp, frames))
+                _reader_twice(fn, d, DumpFileType.LAMMPSVECTOR, held, label, cmp, columnsids=list(cols1))
         else:
             c0 = int(stp["ncol0"])
             want = np.array([io19.columns_expected(pf, [c0 + 1])[0][:, 0] for pf in frames])
@@ -1564,7 +1590,7 @@ FACETS = [
           rule="dumps with 0..3 extra columns (+ optional z column in 2D, tilted headers) x 1..4 frames x columnsids lists "
                "(1-based, any order, repeats) ; read_additions (0-based) on the files with equal N; non-trivial = lines "
                "shuffled and (>= 2 frames or >= 2 columns)"),
-    Facet("reader_sizes", reader_sizes_st(BLOCKS_QUICK, [32, 64]), check_reader_sizes, quick=120, thorough=0,
+    Facet("reader_sizes", reader_sizes_st(BLOCKS_QUICK, [32, 64]), check_reader_sizes, quick=180, thorough=0,
           describe=describe_sizes, shards_quick=3, quick_budget_s=240.0,
           rule="size-boundary classes for the molecule-centre reader, the column reader and read_additions on one seeded "
                "orthogonal dump: atoms per frame B-1, B, B+1, 2B-1, 2B+1, B+B//3 for B in {32, 64, 100, 128, 256}, frames per "
@@ -1595,7 +1621,7 @@ FACETS = [
           describe=describe_log, shards_quick=2,
           rule="as log, but the interrupted trailing section holds only its header or header + one (possibly partial) "
                "line; the complete sections must still be returned in full; non-trivial = always (interrupted section)"),
-    Facet("log_sizes", log_case_st(sizes=BLOCKS_QUICK), check_log, quick=90, thorough=0, quick_budget_s=240.0, describe=describe_log,
+    Facet("log_sizes", log_case_st(sizes=BLOCKS_QUICK), check_log, quick=120, thorough=0, quick_budget_s=240.0, describe=describe_log,
           shards_quick=2,
           rule="size-boundary classes of the log reader: one section with B-1, B, B+1, 2B-1, 2B+1, B+B//3 rows for B in "
                "{32, 64, 100, 128, 256} (seeded values), or that many sections for B in {32, 64} with 1-3 rows each (seeded)"),
